@@ -270,3 +270,109 @@ class SingleRootField(Rule):
 
 
 CONTRACTS.append(SingleRootField())
+
+
+# ---- helpers shared by the uniqueness / definedness rules
+def _is_named(x, name):
+    nm = attr0(x, 'name')
+    return z3.And(nm != V.None_, attr0(nm, 'value') == name)
+
+
+NoneNamed = ForallList('node_not_named', lambda x, name: z3.Not(_is_named(x, name)), param_sorts=[V])
+AllNamed = ForallList('node_named', lambda x, name: _is_named(x, name), param_sorts=[V])
+NAMED_NODE_CLASSES = [c for c in CONCRETE_NODES if T.resolve_attr(c, 'name') is not None]
+AllNameable = ForallList('nameable_node', lambda x: z3.And(V.is_Obj(x), z3.Or(*[V.ocls(x) == T.cid[c] for c in NAMED_NODE_CLASSES]), V.oref(x) >= 0,
+                                                           z3.Or(attr0(x, 'name') == V.None_, named(x))))
+
+
+class FindNodesByName(Contract):
+    """find_nodes_by_name: the sub-list of nodes carrying that name -- empty exactly when no node does"""
+    key = Q + 'utils.py::find_nodes_by_name'
+    property_ids = ('C06', 'C07')
+    params = ['nodes', 'name']
+
+    def args(self, en, names):
+        self.A = super().args(en, names)
+        return self.A
+
+    @property
+    def filter_specs(self):
+        return {0: (AllNamed, NoneNamed, lambda en: [self.A['name']])}
+
+    def pre(self, A, st):
+        return [('nodes', z3.And(V.is_List(A['nodes']), AllNameable(V.items(A['nodes'])))), ('name', V.is_Str(A['name']))]
+
+    def post(self, A, st0, out):
+        if out.kind == 'raise':
+            return never_raises(out)
+        r = out.value
+        return [('empty_iff_no_node_has_the_name', z3.And(V.is_List(r), VL.is_nil(V.items(r)) == NoneNamed(V.items(A['nodes']), A['name']))),
+                ('only_nodes_with_the_name', AllNamed(V.items(r), A['name'])), ('nodes_of_the_input', AllNameable(V.items(r))),
+                ('no_longer_than_the_input', length(V.items(r)) <= length(V.items(A['nodes'])))]
+
+
+CONTRACTS.append(FindNodesByName())
+
+
+# ---- 5.5.1.4 fragments must be used / 5.5.2.1 fragment spread target defined
+AllFragDefs = ForallList('fragment_definition_node', lambda f: z3.And(exact(f, 'FragmentDefinitionNode'), V.oref(f) >= 0, named(f)))
+AllSpreadNodes = ForallList('fragment_spread_node', lambda x: z3.And(exact(x, 'FragmentSpreadNode'), V.oref(x) >= 0, named(x)))
+FragmentUsed = ForallList('fragment_is_spread_somewhere', lambda f, spreads: z3.Not(NoneNamed(spreads, name_of(f))), param_sorts=[VL])
+FragmentUnused = ForallList('fragment_is_never_spread', lambda f, spreads: NoneNamed(spreads, name_of(f)), param_sorts=[VL])
+
+
+def _spreads_or_empty(A):
+    fs = A['fragment_spreads']
+    return z3.If(py_truthy(fs), V.items(fs), VL.nil)
+
+
+class FragmentMustBeUsed(Rule):
+    """5.5.1.4: every defined fragment is the target of at least one spread"""
+    key = Q + 'fragment_must_be_used.py::FragmentMustBeUsed.validate'
+    params = ['self', 'path', 'fragments', 'fragment_spreads']
+    self_class = 'FragmentMustBeUsed'
+
+    @property
+    def filter_specs(self):
+        return {0: (FragmentUnused, FragmentUsed, lambda en: [_spreads_or_empty(self.A)])}
+
+    def pre(self, A, st):
+        fs = A['fragment_spreads']
+        return self.rule_pre(A) + [('fragments', z3.And(V.is_List(A['fragments']), AllFragDefs(V.items(A['fragments'])))),
+                                   ('spreads', z3.Or(fs == V.None_, z3.And(V.is_List(fs), AllSpreadNodes(V.items(fs)), AllNameable(V.items(fs)))))]
+
+    def broken(self, A):
+        return z3.Not(FragmentUsed(V.items(A['fragments']), _spreads_or_empty(A)))
+
+
+SpreadDefined = ForallList('spread_target_is_defined', lambda x, frags: z3.Not(NoneNamed(frags, name_of(x))), param_sorts=[VL])
+
+
+class FragmentSpreadTargetDefined(Rule):
+    """5.5.2.1: every spread names a defined fragment"""
+    key = Q + 'fragment_spread_target_defined.py::FragmentSpreadTargetDefined.validate'
+    params = ['self', 'path', 'fragments', 'fragment_spreads']
+    self_class = 'FragmentSpreadTargetDefined'
+    # _to_errors (one located error per recorded name: a list comprehension over the dict) is abstracted: a list as long as the dict
+    callee_models = {Q + 'fragment_spread_target_defined.py::FragmentSpreadTargetDefined._to_errors':
+                     lambda en, st, a, kw: (lambda r, d: [(st.assume(length(r) == length(V.ditems(d))), V.List(r))])(fresh('errors_of', VL), en.read(a[1], st))}
+
+    def pre(self, A, st):
+        fs = A['fragment_spreads']
+        return self.rule_pre(A) + [('fragments', z3.And(V.is_List(A['fragments']), AllFragDefs(V.items(A['fragments'])), AllNameable(V.items(A['fragments'])))),
+                                   ('spreads', z3.Or(fs == V.None_, z3.And(V.is_List(fs), AllSpreadNodes(V.items(fs)))))]
+
+    def _inv(self, en, st, k, st0):
+        bad = V.ditems(en.read(st.env['erronous_speads'], st))
+        return {'recorded_iff_undefined_target_so_far': VL.is_nil(bad) == SpreadDefined(take(_spreads_or_empty(self.A), k), V.items(self.A['fragments']))}
+
+    @property
+    def loops(self):
+        return {0: LoopContract(self._inv)}
+
+    def broken(self, A):
+        return z3.Not(SpreadDefined(_spreads_or_empty(A), V.items(A['fragments'])))
+
+
+AllBadEntries = ForallList('undefined_spread_entry', lambda p: z3.And(V.is_Pair(p), V.is_Str(V.fst(p)), V.is_List(V.snd(p)), AllAstNodes(V.items(V.snd(p)))))
+CONTRACTS += [FragmentMustBeUsed(), FragmentSpreadTargetDefined()]
